@@ -136,3 +136,23 @@ def _js(o):
     if isinstance(o, bytes):
         return o.hex()
     return repr(o)
+
+
+def relayout(a, mode):
+    """the same values in another memory layout: 0 = C-contiguous copy, 1 = non-contiguous view (columns / every second element of a wider
+    buffer, as the fields of a structured table are), 2 = Fortran order (2-D) — kernels must not care how the caller's array is laid out"""
+    import numpy as np
+    a = np.asarray(a)
+    mode = mode % 3
+    if mode == 0 or a.ndim == 0 or a.size == 0:
+        return np.array(a, copy=True, order='C')
+    if mode == 1:
+        if a.ndim == 1:
+            buf = np.zeros(2 * len(a) + 1, dtype=a.dtype)
+            v = buf[1::2]
+        else:
+            buf = np.zeros((a.shape[0], a.shape[1] + 4) + a.shape[2:], dtype=a.dtype)
+            v = buf[:, 2:2 + a.shape[1]]
+        v[...] = a
+        return v
+    return np.asfortranarray(a.copy()) if a.ndim >= 2 else np.array(a, copy=True)
